@@ -28,12 +28,24 @@ Lemma all_own_shared_nil t : all_own t = true <-> shared_fields t = [].
 Proof. split; [apply forallb_negb_filter | apply filter_nil_forallb]. Qed.
 
 Lemma state_ok_split t :
-  state_ok t = true <-> mutated_defaults t = [] /\ all_own t = true /\ globals_read t = [].
+  state_ok t = true <->
+  mutated_defaults t = [] /\ all_own t = true /\ globals_read t = [] /\ mutated_class_attrs t = [].
 Proof.
   unfold state_ok. split.
-  - intro H. apply andb_true_iff in H as [H H3]. apply andb_true_iff in H as [H1 H2].
+  - intro H. apply andb_true_iff in H as [H H4]. apply andb_true_iff in H as [H H3]. apply andb_true_iff in H as [H1 H2].
     repeat split; auto using is_nil_true.
-  - intros (H1 & H2 & H3). rewrite H1, H2, H3. reflexivity.
+  - intros (H1 & H2 & H3 & H4). rewrite H1, H2, H3, H4. reflexivity.
+Qed.
+
+Lemma classmeta_ok_spec t :
+  mutated_class_attrs t = [] <-> forall m, In m (st_classmeta t) -> cm_mutated m = false /\ cm_aliases m = false.
+Proof.
+  unfold mutated_class_attrs. split.
+  - intros H m Hm. destruct (meta_bad m) eqn:E.
+    + assert (In m (filter meta_bad (st_classmeta t))) by (apply filter_In; auto). rewrite H in H0. destruct H0.
+    + unfold meta_bad in E. apply orb_false_iff in E. exact E.
+  - intro H. apply forallb_negb_filter. apply forallb_forall. intros m Hm.
+    destruct (H m Hm) as [A B]. unfold meta_bad. rewrite A, B. reflexivity.
 Qed.
 
 Lemma modes_of_ok t : mutated_defaults t = [] -> modes_of t = none_modes.
@@ -89,6 +101,17 @@ Section HistoryP.
   Proof. intros hist x w0. exact (proj1 (Hreads x _ _ (run_agree hist x w0))). Qed.
 
   (* every call of every history returns what it returns when it is the only call *)
+  (* state that nobody writes is a constant of the world: reading it keeps the no-interference premise
+     (this is how class metadata such as member_data_items_ enters: cells in no write footprint) *)
+  Lemma constants_keep_no_interference (Kc : list C) :
+    (forall x c, In c Kc -> ~ In c (Wr x)) ->
+    no_interference C call (fun x => (Rd x ++ Kc)%list) Wr.
+  Proof.
+    intros HK x y c Hw Hr. apply in_app_or in Hr as [Hr|Hr].
+    - exact (Hni x y c Hw Hr).
+    - exact (HK x c Hr Hw).
+  Qed.
+
   Corollary results_independent :
     forall hist w0, results C V call res sem hist w0 = map (fun x => fst (sem x w0)) hist.
   Proof.
@@ -97,6 +120,42 @@ Section HistoryP.
     exact (proj1 (Hreads x _ _ (step_agree x y w0))).
   Qed.
 End HistoryP.
+
+(* a keyed memo whose values are a function of the key (and of constants) is transparent: every history of lookups
+   returns f on each key, whatever was looked up before, and the table stays consistent *)
+Section MemoP.
+  Variables K V : Type.
+  Variable keqb : K -> K -> bool.
+  Variable f : K -> V.
+  Hypothesis keqb_eq : forall a b, keqb a b = true -> a = b.
+
+  Lemma mget_result m k : mconsistent K V keqb f m -> fst (mget K V keqb f m k) = f k.
+  Proof. intro H. unfold mget. destruct (mlookup K V keqb m k) eqn:E; simpl; auto. Qed.
+
+  Lemma mget_consistent m k : mconsistent K V keqb f m -> mconsistent K V keqb f (snd (mget K V keqb f m k)).
+  Proof.
+    intro H. unfold mget. destruct (mlookup K V keqb m k) eqn:E; simpl; auto.
+    intros k' v. simpl. destruct (keqb k k') eqn:Q.
+    - intro S. inversion S. apply keqb_eq in Q. subst. reflexivity.
+    - apply H.
+  Qed.
+
+  Theorem memo_transparent : forall ks m, mconsistent K V keqb f m ->
+    fst (mrun K V keqb f ks m) = map f ks /\ mconsistent K V keqb f (snd (mrun K V keqb f ks m)).
+  Proof.
+    induction ks as [|k r IH]; intros m H; simpl; auto.
+    pose proof (mget_result m k H) as R. pose proof (mget_consistent m k H) as Cn.
+    destruct (mget K V keqb f m k) as [v m1]. simpl in *.
+    destruct (IH m1 Cn) as [A B]. destruct (mrun K V keqb f r m1) as [vs m2]. simpl in *. subst. auto.
+  Qed.
+
+  Corollary memo_from_empty ks : fst (mrun K V keqb f ks []) = map f ks.
+  Proof. apply memo_transparent. intros k v E. discriminate E. Qed.
+End MemoP.
+
+Example memo_example :
+  fst (mrun string nat String.eqb String.length ["ab"; "c"; "ab"; "abc"; "c"] []) = [2; 1; 2; 3; 1].
+Proof. vm_compute. reflexivity. Qed.
 
 (* non-vacuity: a semantics with non-trivial, non-interfering footprints.
    cells are naturals; call true reads cell 0 and writes cell 1; call false reads cells 0,2 and writes cell 3 *)
@@ -332,9 +391,11 @@ Section Loaders.
       pose proof (good_read2 fuel src incl r loc w1 w2 Hr Hw) as (A & B & Cc & D).
       destruct (read2 fuel ms sh fs src incl r loc w1) as [[a1 l1] x1].
       destruct (read2 fuel ms sh fs src incl r loc w2) as [[a2 l2] x2]. simpl in *. repeat split; auto; apply D; auto.
-    - pose proof (good_load_h5 _ (good_read2 fuel) p ALocal [] w1 w2 I Hw) as (A & B & Cc & D).
-      destruct (load_h5_with (read2 fuel ms sh fs) ms sh fs p ALocal [] w1) as [[a1 l1] x1].
-      destruct (load_h5_with (read2 fuel ms sh fs) ms sh fs p ALocal [] w2) as [[a2 l2] x2]. simpl in *. repeat split; auto; apply D; auto.
+    - assert (Hr : ref_ok (default_ref (m_h5 ms) CellH5)) by exact (start_ref_ok CellH5 None).
+      pose proof (good_load_h5 _ (good_read2 fuel) p (default_ref (m_h5 ms) CellH5) [] w1 w2 Hr Hw) as (A & B & Cc & D).
+      destruct (load_h5_with (read2 fuel ms sh fs) ms sh fs p (default_ref (m_h5 ms) CellH5) [] w1) as [[a1 l1] x1].
+      destruct (load_h5_with (read2 fuel ms sh fs) ms sh fs p (default_ref (m_h5 ms) CellH5) [] w2) as [[a2 l2] x2].
+      simpl in *. repeat split; auto; apply D; auto.
     - destruct (lookup_file fs p) as [f|]; [destruct (f_kind f)|]; simpl; repeat split; auto.
   Qed.
 
@@ -416,15 +477,15 @@ Definition wit_fs : fstore :=
 Definition wit_call : lcall := CString "/d/main.nml" true None.
 
 Theorem C07_history_shared_refuted :
-  forall mf mi me af ht,
-  let ms := {| m_file := mf; m_string := DSharedList; m_inner := mi |} in
+  forall mf mi mh me af ht,
+  let ms := {| m_file := mf; m_string := DSharedList; m_inner := mi; m_h5 := mh |} in
   let sh := {| sh_mark_entry := me; sh_append_first := af; sh_h5_threads := ht |} in
   exists fs hist x,
     fst (exec_call 10 ms sh fs x (run_hist 10 ms sh fs hist w_empty)) <> fst (exec_call 10 ms sh fs x w_empty)
     /\ fst (exec_call 10 ms sh fs x w_empty) <> RFuel.
 Proof.
-  intros mf mi me af ht ms sh. exists wit_fs, [wit_call], wit_call.
-  destruct mf, mi, me, af, ht; vm_compute; split; discriminate.
+  intros mf mi mh me af ht ms sh. exists wit_fs, [wit_call], wit_call.
+  destruct mf, mi, mh, me, af, ht; vm_compute; split; discriminate.
 Qed.
 
 (* the same through the HDF5 loader: the embedded XML is read with the shared default *)
@@ -434,7 +495,7 @@ Definition wit_fs_h5 : fstore :=
                         f_net := ["networks:net0"] |})].
 
 Theorem C07_history_shared_refuted_h5 :
-  let ms := {| m_file := DNone; m_string := DSharedList; m_inner := DSharedList |} in
+  let ms := {| m_file := DNone; m_string := DSharedList; m_inner := DSharedList; m_h5 := DNone |} in
   fst (exec_call 10 ms shape0 wit_fs_h5 (CLoadH5 "/d/net.nml.h5") (run_hist 10 ms shape0 wit_fs_h5 [CLoadH5 "/d/net.nml.h5"] w_empty))
   <> fst (exec_call 10 ms shape0 wit_fs_h5 (CLoadH5 "/d/net.nml.h5") w_empty).
 Proof. vm_compute. discriminate. Qed.
@@ -603,3 +664,49 @@ Example builder_example :
   bdump (fun _ => true) WB (brun false (fun _ => true) wit_sched bsys0)
   = ([("doc", ["docB"], []); ("network", ["netB"], []); ("population", ["p"; "cellB"; ""], [1%Z])], [false; false; false]).
 Proof. vm_compute. reflexivity. Qed.
+
+(* every one of the seven dicts matters: with that dict alone shared there is a schedule (the directed stored schedules of
+   checks/c07.py: A's prefix, all of B, A's last call) after which builder A's document differs from its solo run *)
+Definition dfield_eqb (a b : dfield) : bool :=
+  match a, b with
+  | DPops, DPops | DProjs, DProjs | DSyns, DSyns | DTypes, DTypes | DSynsPre, DSynsPre | DILists, DILists | DWD, DWD => true
+  | _, _ => false
+  end.
+
+Definition only_shared (f : dfield) : dfield -> bool := fun x => negb (dfield_eqb x f).
+
+Definition dhead (t : string) : list op :=
+  [OpDocStart ("doc" ++ t); OpNetwork ("net" ++ t); OpPopulation "p" ("cell" ++ t) 2%Z].
+Definition dconn : op := OpConnection "pr" 0%Z "p" "p" 0%Z 1%Z 0%Z 1%Z.
+
+Definition directed_streams (f : dfield) : list op * list op :=
+  match f with
+  | DPops => ((dhead "A" ++ [OpLocation 0%Z "p" (Some (1, 2, 3)%Z)])%list, dhead "B")
+  | DProjs => ((dhead "A" ++ [OpProjection "pr" "p" "p" "synA" PProj false false None; dconn])%list,
+               (dhead "B" ++ [OpProjection "pr" "p" "p" "synB" PProj false false None])%list)
+  | DSyns => ((dhead "A" ++ [OpProjection "pr" "p" "p" "synA" PElec false false None; dconn])%list,
+              (dhead "B" ++ [OpProjection "pr" "p" "p" "synB" PElec false false None])%list)
+  | DTypes => ((dhead "A" ++ [OpProjection "pr" "p" "p" "synA" PProj false false None; OpFinalise "pr" "p" "p" "synA" None])%list,
+               (dhead "B" ++ [OpProjection "pr" "p" "p" "synB" PElec false false None])%list)
+  | DSynsPre => ((dhead "A" ++ [OpProjection "pr" "p" "p" "synA" PCont false false (Some "preA"); dconn])%list,
+                 (dhead "B" ++ [OpProjection "pr" "p" "p" "synB" PCont false false (Some "preB")])%list)
+  | DILists => ((dhead "A" ++ [OpInputList "il0" "p" "pgA"; OpSingleInput "il0" 0%Z 1%Z 1%Z])%list,
+                (dhead "B" ++ [OpInputList "il0" "p" "pgB"])%list)
+  | DWD => ((dhead "A" ++ [OpProjection "pr" "p" "p" "synA" PProj true true None; dconn])%list,
+            (dhead "B" ++ [OpProjection "pr" "p" "p" "synB" PProj false false None])%list)
+  end.
+
+Definition directed_sched (f : dfield) : list (who * op) :=
+  let '(sa, sb) := directed_streams f in
+  (map (fun o => (WA, o)) (removelast sa) ++ map (fun o => (WB, o)) sb ++ [(WA, last sa (OpDocStart ""))])%list.
+
+Theorem each_dict_matters :
+  forall eg f, bdump (only_shared f) WA (brun eg (only_shared f) (directed_sched f) bsys0)
+               <> solo_dump eg (ops_of WA (directed_sched f)).
+Proof. intros eg f. destruct eg, f; vm_compute; discriminate. Qed.
+
+(* ... and the same schedules are harmless when nothing is shared (instance of builder_interleave_dump) *)
+Example directed_schedules_all_own :
+  forall eg f w, bdump (fun _ => true) w (brun eg (fun _ => true) (directed_sched f) bsys0)
+                 = solo_dump eg (ops_of w (directed_sched f)).
+Proof. intros. apply builder_interleave_dump. reflexivity. Qed.
